@@ -131,39 +131,28 @@ Fixpoint slice_del (k : skey) (l : list skey) : list skey :=
   | x :: t => if skey_eqb x k then t else x :: slice_del k t
   end.
 
-(* addTo<X>Beacon: if the ASC beacon is initialised, add to both and re-sort both.
-   [as_int64]: the legacy addToValueBeacon re-sorted with SortByValueInt64*. *)
-Definition add_to_family (as_int64 : bool) (s : st) (f : fam) (k : skey) : st :=
-  if b_init (bcn s f true) then
-    let srt asc l := if as_int64 then sort_slice_int64 (recs s) asc l else sort_slice (recs s) f asc l in
-    let s1 := set_bcn s f true (mkb true (srt true (slice_add k (b_slice (bcn s f true))))) in
-    (* beacon.Add stores initialized = 1 *)
-    set_bcn s1 f false (mkb true (srt false (slice_add k (b_slice (bcn s f false)))))
-  else s.
+(* One maintenance step on one beacon, for the treasure with key [k]:
+   [del]: deleteTreasureIfBeaconInitialized (beacon.Delete);
+   [add]: addTo<X>Beacon – only if the ASC beacon of the pair is initialised ([asc_init]):
+          beacon.Add (stores initialized = 1) followed by the re-sort [srt]. *)
+Definition upd_beacon (srt : bool -> list skey -> list skey) (asc del add : bool) (k : skey)
+  (asc_init : bool) (b : beacon) : beacon :=
+  let b1 := if del && b_init b then mkb true (slice_del k (b_slice b)) else b in
+  if add && asc_init then mkb true (srt asc (slice_add k (b_slice b1))) else b1.
 
-(* deleteTreasureIfBeaconInitialized on both beacons of a family *)
-Definition del_from_family (s : st) (f : fam) (k : skey) : st :=
-  let d s asc := if b_init (bcn s f asc)
-                 then set_bcn s f asc (mkb true (slice_del k (b_slice (bcn s f asc)))) else s in
-  d (d s true) false.
+(* A maintenance pass over the ten beacons (deleteTreasureFromBeacons / addTreasureToBeacons /
+   the refresh in SaveFunction). The five families do not read each other's beacons, so the
+   pass is written pointwise. [rs'] is the record map after the write: the slices point to the
+   live treasure objects, so every re-sort sees the new attribute values. *)
+Definition upd_all (s : st) (rs' : list rec) (srt : fam -> bool -> list skey -> list skey)
+  (del add : fam -> bool) (k : skey) : st :=
+  mkst rs'
+       (fun f asc => upd_beacon (srt f) asc (del f) (add f) k (b_init (bcn s f true)) (bcn s f asc))
+       (vtype s).
 
-Definition all_fams : list fam := [FKey; FCreated; FUpdated; FExpiry; FValue].
-
-(* addTreasureToBeacons (with the guards: timestamp <> 0; current code: content type = the
-   value type the value beacons were built for) *)
-Definition add_to_beacons (legacy : bool) (s : st) (r : rec) : st :=
-  fold_left (fun s f =>
-      if (if legacy && fam_eqb f FValue then true else has_attr f (vtype s) r)
-      then add_to_family (legacy && fam_eqb f FValue) s f (r_key r) else s)
-    all_fams s.
-
-Definition del_from_beacons (s : st) (k : skey) : st :=
-  fold_left (fun s f => del_from_family s f k) all_fams s.
-
-(* refresh one family after an in-place update: drop the entry, re-add under the new attribute *)
-Definition refresh_family (s : st) (f : fam) (r : rec) : st :=
-  let s1 := del_from_family s f (r_key r) in
-  if has_attr f (vtype s1) r then add_to_family false s1 f (r_key r) else s1.
+(* the re-sort used by addTo<X>Beacon; the legacy addToValueBeacon used SortByValueInt64* *)
+Definition resort (legacy : bool) (rs : list rec) (f : fam) : bool -> list skey -> list skey :=
+  if legacy && fam_eqb f FValue then sort_slice_int64 rs else sort_slice rs f.
 
 Fixpoint replace_rec (r : rec) (rs : list rec) : list rec :=
   match rs with
@@ -176,31 +165,39 @@ Fixpoint remove_rec (k : skey) (rs : list rec) : list rec :=
   | x :: t => if skey_eqb (r_key x) k then t else x :: remove_rec k t
   end.
 
-Definition with_recs (s : st) (rs : list rec) : st := mkst rs (bcn s) (vtype s).
-
 Definition opt_or (o : option Z) (d : Z) : Z := match o with Some z => z | None => d end.
 Definition is_some {X} (o : option X) : bool := match o with Some _ => true | None => false end.
+
+(* which indexes SaveFunction's modified branch refreshes for record [r]: the sticky "changed"
+   flags of the treasure (contentChanged is raised by the first SetContent* and never reset;
+   contentTypeChanged is not raised by the gateway's Set). Legacy: the expiry index only. *)
+Definition refreshed (legacy : bool) (r : rec) (f : fam) : bool :=
+  match f with
+  | FKey => false
+  | FExpiry => r_fe r
+  | FCreated => negb legacy && r_fc r
+  | FUpdated => negb legacy && r_fu r
+  | FValue => negb legacy
+  end.
 
 (* gateway Set of one key (CreateIfNotExist, Overwrite): keyValuesToTreasure + Save -> SaveFunction.
    Meta fields that are absent in the request keep their old value. *)
 Definition do_set (legacy : bool) (s : st) (k : skey) (ct : N) (v : skey) (c u e : option Z) : st :=
   match find_rec k (recs s) with
   | None =>
+      (* new treasure: addTreasureToBeacons, with its guards (timestamp <> 0; current code:
+         content type = the value type the value beacons are built for) *)
       let r := mkrec k ct v (opt_or c 0) (opt_or u 0) (opt_or e 0) (is_some c) (is_some u) (is_some e) in
-      add_to_beacons legacy (with_recs s (recs s ++ [r])) r
+      let rs' := recs s ++ [r] in
+      upd_all s rs' (resort legacy rs') (fun _ => false)
+              (fun f => if legacy && fam_eqb f FValue then true else has_attr f (vtype s) r) k
   | Some old =>
       let r := mkrec k ct v (opt_or c (r_created old)) (opt_or u (r_updated old)) (opt_or e (r_expiry old))
                      (r_fc old || is_some c) (r_fu old || is_some u) (r_fe old || is_some e) in
-      let s1 := with_recs s (replace_rec r (recs s)) in
-      (* modified branch of SaveFunction; contentChanged is set by the first SetContent* and never
-         reset, contentTypeChanged is not raised by the gateway's Set *)
-      if legacy then
-        if r_fe r then refresh_family s1 FExpiry r else s1
-      else
-        let s2 := if r_fe r then refresh_family s1 FExpiry r else s1 in
-        let s3 := if r_fc r then refresh_family s2 FCreated r else s2 in
-        let s4 := if r_fu r then refresh_family s3 FUpdated r else s3 in
-        refresh_family s4 FValue r
+      let rs' := replace_rec r (recs s) in
+      (* modified branch: drop the stale entry, re-add it under the new attribute if it has one *)
+      upd_all s rs' (resort false rs') (refreshed legacy r)
+              (fun f => refreshed legacy r f && has_attr f (vtype s) r) k
   end.
 
 (* gateway Delete -> DeleteTreasure -> deleteHandler; an emptied swamp is destroyed *)
@@ -208,8 +205,11 @@ Definition do_del (s : st) (k : skey) : st :=
   match find_rec k (recs s) with
   | None => s
   | Some _ =>
-      let s1 := del_from_beacons (with_recs s (remove_rec k (recs s))) k in
-      match recs s1 with [] => init_st | _ => s1 end
+      let rs' := remove_rec k (recs s) in
+      match rs' with
+      | [] => init_st
+      | _ => upd_all s rs' (resort false rs') (fun _ => true) (fun _ => false) k
+      end
   end.
 
 (* ---- reads -------------------------------------------------------------------------------- *)
@@ -219,19 +219,16 @@ Definition fam_of (i : idx) : fam :=
 Definition vt_of (i : idx) (dflt : N) : N := match i with IValue vt => vt | _ => dflt end.
 Definition is_time (f : fam) : bool := match f with FCreated | FUpdated | FExpiry => true | _ => false end.
 
-(* buildBeacon: each uninitialised beacon of the pair gets initialized := 1, the matching
-   records pushed (map iteration order – irrelevant after the sort) and is sorted *)
-Definition build_family (s : st) (f : fam) (vt : N) : st :=
-  let cs := map r_key (filter (has_attr f vt) (recs s)) in
-  let b s asc := if b_init (bcn s f asc) then s
-                 else set_bcn s f asc (mkb true (sort_slice (recs s) f asc (b_slice (bcn s f asc) ++ cs))) in
-  b (b s true) false.
-(* legacy: every record is pushed into the value beacons *)
-Definition build_family_legacy_value (s : st) : st :=
-  let cs := map r_key (recs s) in
-  let b s asc := if b_init (bcn s FValue asc) then s
-                 else set_bcn s FValue asc (mkb true (sort_slice (recs s) FValue asc (b_slice (bcn s FValue asc) ++ cs))) in
-  b (b s true) false.
+(* buildBeacon: each uninitialised beacon of the pair gets initialized := 1, the records [cs]
+   pushed (map iteration order – irrelevant after the sort) and is sorted *)
+Definition build_beacon (rs : list rec) (f : fam) (asc : bool) (cs : list skey) (b : beacon) : beacon :=
+  if b_init b then b else mkb true (sort_slice rs f asc (b_slice b ++ cs)).
+Definition build_family (s : st) (f : fam) (cs : list skey) : st :=
+  mkst (recs s)
+       (fun f' a => if fam_eqb f' f then build_beacon (recs s) f a cs (bcn s f' a) else bcn s f' a)
+       (vtype s).
+(* treasuresForBeacon *)
+Definition carrier_keys (f : fam) (vt : N) (rs : list rec) : list skey := map r_key (filter (has_attr f vt) rs).
 
 (* findInValueBeacon (current code): a request for another value type than the one the pair was
    built for resets the pair first *)
@@ -313,9 +310,9 @@ Definition do_read (legacy : bool) (s : st) (i : idx) (asc : bool) (from lim : N
   let f := fam_of i in
   let lim' := if N.eqb lim 0 then Z.of_nat (length (recs s)) else Z.of_N lim in
   let s1 := match i with
-            | IValue vt => if legacy then build_family_legacy_value s
-                           else build_family (prepare_value s vt) FValue vt
-            | _ => build_family s f 0%N
+            | IValue vt => if legacy then build_family s FValue (map r_key (recs s))   (* every record *)
+                           else build_family (prepare_value s vt) FValue (carrier_keys FValue vt (recs s))
+            | _ => build_family s f (carrier_keys f 0%N (recs s))
             end in
   let b := bcn s1 f asc in
   let w (o : option Z) := if is_time f then option_map (fun z => [z]) o else None in
